@@ -442,7 +442,18 @@ def _put_incr(rnd, g, tier):
              "boundscheck": bc, "n": n, "m": m}, {"data": "io", "ind": "in", "vals": "in"}, {"data": "all"})
 
 
-GEN["put_incr64"] = _put_incr
+def _put_incr64(rnd, g, tier):
+    vals, roles, promise = _put_incr(rnd, g, tier)
+    if vals["boundscheck"] and vals["n"] and rnd.random() < 0.5:
+        # 64 bit indices: out of range by more than 32 bits, while their low 32 bits would be a valid position
+        ind = list(vals["ind"])
+        low = rnd.randrange(vals["m"])
+        ind[rnd.randrange(vals["n"])] = rnd.choice([2 ** 32 + low, -2 ** 32 + low, 2 ** 40 + low, -2 ** 62 + low])
+        vals["ind"] = ind
+    return vals, roles, promise
+
+
+GEN["put_incr64"] = _put_incr64
 GEN["put_incr32"] = _put_incr
 
 
